@@ -24,4 +24,40 @@ CHECK_TEXT = {
         "level_note": "MdnsManager.Start's provider selection is replaced by the VerifAttach hook; configurations with invalid UTF-8 are only checked for truncation and crashes (outside the quantifier).",
         "design_ref": "DESIGN.md 6 C16",
     },
+    "C01": {
+        "technique": "runtime monitor over event logs of real ShipConnections in synctest bubbles (virtual time): trust-grant oracle",
+        "level_text": "No ungranted progress observed on any generated history (8k quick / 250k thorough scenarios, every reachable state x input class); exploration, not exhaustive.",
+        "level_note": "Fake transport and info provider (mirroring hub.Hub answers) are trusted; hub-level trust bookkeeping is exercised by the hubnet engine once built.",
+        "design_ref": "DESIGN.md 6 C01",
+    },
+    "C03": {
+        "technique": "runtime monitor: two real endpoints, seeded interleavings in virtual time, outcome-table oracle (timely) and agreement-at-quiescence oracle (arbitrary)",
+        "level_text": "Every explored configuration x interleaving ended as the outcome table dictates (timely) and never in a lasting disagreement (arbitrary); bounded runs (12 virtual minutes).",
+        "level_note": "'eventually' is decided at bounded quiescence; FIFO lossless transport model; outcome table written from the documented handshake behaviour.",
+        "design_ref": "DESIGN.md 6 C03, appendix D",
+    },
+    "C04": {
+        "technique": "runtime monitor: reported state sequence checked online against a specification graph; finality checked at quiescent snapshots; single write-fault sweep",
+        "level_text": "All reported transitions on all explored histories are edges of the role's graph and every terminal outcome stayed final; includes a fault at every single write index of cooperative runs.",
+        "level_note": "Specification graph is hand-written (appendix A); histories <= 24 events.",
+        "design_ref": "DESIGN.md 6 C04, appendix A",
+    },
+    "C06": {
+        "technique": "runtime monitor with unique payload ids: exactly-once / order / not-before-complete / no-loss check over reader events",
+        "level_text": "Held on all explored arrival interleavings of data frames with the receiver's remaining handshake (one endpoint) and on two-endpoint runs with concurrent application writers.",
+        "level_note": "In-memory FIFO transport; real websocket path is covered by the hubnet/wsconn engines once built.",
+        "design_ref": "DESIGN.md 6 C06",
+    },
+    "C08": {
+        "technique": "runtime crash/wedge oracle: recovered panics, child-process death attribution, watchdog goroutine-dump wedge detection, under -race (checkptr)",
+        "level_text": "No panic and no wedge on any delivered input (35k quick / 1M thorough inputs across all reachable handshake states, both roles).",
+        "level_note": "Structured mutations + random bytes; no claim beyond generated classes; websocket frames and mDNS TXT inputs are covered by wsconn/mdnssim once built.",
+        "design_ref": "DESIGN.md 6 C08",
+    },
+    "C09": {
+        "technique": "runtime monitor over event logs: presented-vs-stored SHIP id oracle with an independent parser of the presented id",
+        "level_text": "Held on the full stored x presented grid for both roles and on two-endpoint runs with wrong/right/unknown ids.",
+        "level_note": "Mutated access messages that the independent parser cannot read strictly yield no verdict (counted).",
+        "design_ref": "DESIGN.md 6 C09",
+    },
 }
